@@ -17,7 +17,8 @@
    that placement is as good as any: with successes only nothing ever throttles; with
    failures only every reject has at least Protection+1 failures recorded before it whose
    reqEnd is in the log before the reject's own next event, and lastPass (None on a fresh
-   breaker, clock fixed) is never due.                                            *)
+   breaker, clock fixed) is never due.  Calls on a done context (mixed into the bursts) have
+   one possible decision, the skip, which touches nothing wherever it is placed.     *)
 EXTENDS Breaker, TraceKit
 
 VARIABLES l, eager
